@@ -328,12 +328,19 @@ func Render(toks []Tok, l Layout) (string, []Gap) {
 	return sb.String(), gaps
 }
 
+// layoutComments are written (rarely) into the gaps of the random layout;
+// each is flanked by whitespace so that it can stand in any gap.
+var layoutComments = []string{" /* c */ ", " -- c\n", " /**/ ", " /***/ ", " /****/ ", " /*****/ ", " /* x ***/ ", " /*** x ***/ ", " /* x ******/ ", " /* x *********/ ", " /* a\n b */ ", " --1st\n", " --2024-01-01 x\n", " --0\r\n", " -- /* c\n", " /* -- */ "}
+
 func pickWS(rg *mon.Rng, required bool) string {
 	if rg == nil {
 		if required {
 			return " "
 		}
 		return ""
+	}
+	if rg.P(0.02) {
+		return layoutComments[rg.Intn(len(layoutComments))]
 	}
 	if !required && rg.P(0.35) {
 		return ""
